@@ -5165,3 +5165,73 @@ def _(ctx):
 @spec("C13", "r_hex_literal_read_as_money", "the same intersection for the currency words xaf, xcd (after the leading 0) and aed, bbd, cad, cdf (after a run of decimal digits): hexadecimal literals such as 0xAF, 0xCD, 0x1AED must denote their integer (known finding: read as money)", finding="C13-hex-literal-read-as-money")
 def _(ctx):
     based_literals_spec(ctx, True)
+
+
+
+# ============================================================================ C09: every month name of a line becomes a Month token
+@spec("C09", "m_month_parser", "month_parser (MIR; the month table of the language holds one pattern, the regex engine reports two matches of it in the line - the engine itself is a stub that returns them in order): every match is handed to add_token_from_match as Month(number of that month), in order - a line may name a month more than once ('1 january 2021 to 11 january 2021')")
+def _(ctx):
+    ex = new_exec("real")
+    cfields = struct_fields("src/config.rs", "SmartCalcConfig")
+    tfields = struct_fields("src/tokinizer/mod.rs", "Tokinizer")
+    cfgv = SymV(ex, "config", "config::SmartCalcConfig")
+    tk = SymV(ex, "tokinizerM", "tokinizer::Tokinizer")
+    month_no = z3.Int("month_no")
+    ex.domain.append(z3.And(month_no >= 1, month_no <= 12))
+    ex.inputs["month_no"] = month_no
+    info = StructV("MonthInfo", [StrV("jan"), StrV("january"), IntV(month_no, 8, False)])
+    rx = RegexV("month-pattern")
+    matches = [StructV("Match", [IntV(i, 64, False)]) for i in (1, 2)]
+
+    def h_iter(ex_, name, args, path, depth, caller):
+        yield execmir_Outcome("return", path.event(("search", "captures_iter")), IterV([StructV("Captures", [m]) for m in matches], 0, False, True))
+
+    def h_get(ex_, name, args, path, depth, caller):
+        c = models.deref(args[0])
+        yield execmir_Outcome("return", path, EnumV("Option", "Some", [c.f[0]]))
+
+    def h_find(ex_, name, args, path, depth, caller):
+        yield execmir_Outcome("return", path.event(("search", "find")), EnumV("Option", "Some", [matches[0]]))
+
+    def h_add(ex_, name, args, path, depth, caller):
+        m, tok = models.deref(args[1]), models.deref(args[2])
+        yield execmir_Outcome("return", path.event(("add_token", m, tok)), z3.Bool("added%d" % len(path.events)))
+    add = lambda rx_, fn_: ex.handlers.insert(0, (_re.compile(rx_), fn_))
+    add(r"^(regex::)?Regex::captures_iter$", h_iter)
+    add(r"^(regex::)?Regex::find$", h_find)
+    add(r"^(regex::)?Captures::<'_>::get$", h_get)
+    add(r"^(tokinizer::)?Tokinizer::(<'_>::)?add_token_from_match$", h_add)
+    add(r"^(tokinizer::)?Tokinizer::(<'_>::)?add_uitoken_from_match$", models.h_opaque)
+    add(r"^BTreeMap::<(alloc::string::)?String, Vec<\((regex::)?Regex, (constants::)?MonthInfo\)>>::get::<.*>$", models.h_mapc_get)
+    add(r"^<regex::CaptureMatches<.*> as Iterator>::next$|^<CaptureMatches<.*> as Iterator>::next$", models.h_iter_next)
+    add(r"^<regex::CaptureMatches<.*> as IntoIterator>::into_iter$|^<CaptureMatches<.*> as IntoIterator>::into_iter$", models.h_identity_keep)
+    st = {
+        (cfgv.path, cfields.index("month_regex")): MapC({"en": VecV([TupleV([rx, info])])}),
+        (tk.path, tfields.index("language")): StrV("en"),
+    }
+    fn = find_fn("month_parser")
+    ctx.part.functions.append("tokinizer::regex_tokinizer::month_parser")
+    n = 0
+    rp = ("m_replay_month_twice", [])
+    for o in ex.run(fn, [RefV(cfgv), RefV(tk), RefV(StrV(z3.String("line")))], Path(stores=st)):
+        ctx.paths += 1
+        if o.kind == "panic":
+            ctx.reachable(ex, o.path, "month_parser can panic: " + o.msg, rp)
+            continue
+        if not ex.feasible(o.path):
+            continue
+        n += 1
+        ctx.part.queries += 1
+        adds = [e for e in o.path.events if e[0] == "add_token"]
+        ok = len(adds) == len(matches)
+        for e, m in zip(adds, matches):
+            got_m = e[1].f[0] if isinstance(e[1], EnumV) and e[1].variant == "Some" else None
+            tok = e[2].f[0] if isinstance(e[2], EnumV) and e[2].variant == "Some" else None
+            if got_m is not m or not (isinstance(tok, EnumV) and tok.variant == "Month"):
+                ok = False
+                break
+            ctx.claim(ex, o.path, tok.f[0].t == month_no, "a month name is not recorded as the number of its month", rp)
+        if not ok:
+            ctx.failures.append(("month_parser does not record every match of a month name in the line as a Month token (%d of %d recorded)" % (len(adds), len(matches)), {}, rp))
+    if not n:
+        ctx.failures.append(("month_parser: nothing executed", {}, None))
